@@ -154,6 +154,10 @@ fn ser_named_type(ty: &OwnedDataModelType, value: &Value, out: &mut Vec<u8>) -> 
         OwnedDataModelType::F32 => {
             let val = value.as_f64().right()?;
             let val = val as f32; // todo
+            if !val.is_finite() {
+                // out of f32 range: the decoder could not represent it as a JSON number
+                return Err(Error::SchemaMismatch);
+            }
             let val = val.to_le_bytes();
             out.extend_from_slice(&val);
         }
